@@ -89,6 +89,56 @@ def close(a, b, rtol=1e-9):
 # ------------------------------------------------------------------ clause: layout
 
 
+
+# ------------------------------------------------------------------ query history ("warm-up")
+# A bank object is queried many times (one computer per DFT width, vis, torch ports); results must not
+# depend on what was asked before. Each case may carry a drawn list of earlier queries that are made on
+# the *same instance* before the judged query, so that an order-dependent implementation (memoised
+# responses keyed too coarsely, shared scratch buffers) is judged by the same oracle.
+
+def half_len(W):
+    return (W + 1) // 2 if W % 2 else W // 2 + 1
+
+
+def warmups():
+    op = st.fixed_dictionaries({
+        "m": st.sampled_from(["freq", "half", "trunc", "imp", "freq", "half"]),
+        "filt": st.sampled_from(["same", "same", "same", 0, 1, 2]),
+        "w": st.sampled_from(["same", "same", "2W-2", "2W-1", "half_len", "W+1", "W-1", 7, 12, 64]),
+    })
+    return st.one_of(st.just([]), st.lists(op, min_size=1, max_size=4))
+
+
+def apply_warmup(bank, num_filts, i, W, warmup):
+    for op in warmup or ():
+        w = op["w"]
+        if w == "same":
+            w = W
+        elif w == "2W-2":
+            w = 2 * W - 2
+        elif w == "2W-1":
+            w = 2 * W - 1
+        elif w == "half_len":
+            w = half_len(W)
+        elif w == "W+1":
+            w = W + 1
+        elif w == "W-1":
+            w = W - 1
+        w = int(w)
+        if w < 2 or w > 8192:
+            continue
+        j = i if op["filt"] == "same" else int(op["filt"]) % num_filts
+        m = op["m"]
+        if m == "freq":
+            call("get_frequency_response (earlier query)", bank.get_frequency_response, j, w)
+        elif m == "half":
+            call("get_frequency_response(half=True) (earlier query)", bank.get_frequency_response, j, w, True)
+        elif m == "trunc":
+            call("get_truncated_response (earlier query)", bank.get_truncated_response, j, w)
+        elif m == "imp" and w <= 512:
+            call("get_impulse_response (earlier query)", bank.get_impulse_response, j, w)
+
+
 def check_layout(case):
     spec = case["bank"]
     thr = _thr()
@@ -130,6 +180,7 @@ def check_triangle(case):
         W = int(min(4096, max(2, math.ceil(case["bins"] * rate / (rr - rl)))))
     lo, hi = (float(x) for x in bank.supports_hz[i])
     mid = float(bank.centers_hz[i])
+    apply_warmup(bank, spec["num_filts"], i, W, case.get("warmup"))
     H = call("get_frequency_response", bank.get_frequency_response, i, W)
     require(isinstance(H, np.ndarray) and H.shape == (W,), "frequency response has shape {!r}, expected ({},)", getattr(H, "shape", None), W)
     require(bool(np.all(np.isfinite(H))), "non-finite values in the frequency response (width {})", W)
@@ -361,6 +412,7 @@ def clauses(tier):
         "width": st.one_of(st.none(), st.none(), st.integers(2, 16), st.integers(2, 2048),
                            st.sampled_from([2, 3, 4, 8, 64, 255, 256, 257, 512, 1024, 2048])),
         "bins": st.one_of(floats(0.5, 4.0), floats(1.0, 64.0)),
+        "warmup": warmups(),
     })
     gain_case = lambda: st.fixed_dictionaries({  # noqa
         "bank": narrowed_specs(["gabor", "gammatone"], allow_l2=False),
